@@ -1,7 +1,7 @@
 (* C15  SlidingWindow.crop returns exactly the frames its loose/strict/center mode picks.
    Exact tier (integer ticks, exact quotients); the float side is tied by the correspondence.
    Statements only. *)
-From PV Require Import Model.Window Proofs.WindowP.
+From PV Require Import Model.Window Proofs.SupportP Proofs.WindowP Proofs.RangesP.
 
 Section C15.
 Variable w : win.
@@ -45,6 +45,17 @@ Proof. exact crop_indices_tl_spec. Qed.
 Theorem C15_empty_focus : forall eps w m, crop_indices_tl eps w [] m = [] /\ crop_ranges_tl eps w [] m = [].
 Proof. exact crop_empty_focus. Qed.
 
+(* return_ranges=True: [cov rs k] = some half-open run (i, j) of rs has i <= k < j; [sep] = each run
+   starts after the previous one ends. The runs describe exactly the index set of the index array. *)
+Theorem C15_ranges_describe_the_same_index_set : forall eps w focus m, 0 <= eps -> 0 < w_step w -> wf eps focus ->
+  forall k, cov (crop_ranges_tl eps w focus m) k <-> In k (crop_indices_tl eps w focus m).
+Proof. exact ranges_same_set. Qed.
+Theorem C15_ranges_are_separated_runs : forall eps w focus m, 0 <= eps -> 0 < w_step w -> wf eps focus ->
+  (forall k, cov (crop_ranges_tl eps w focus m) k <->
+             exists s, In s (support eps 0 focus) /\ in_r (crop_range w s m None) k) /\
+  sep (crop_ranges_tl eps w focus m).
+Proof. exact crop_ranges_tl_spec. Qed.
+
 Example C15_nonvacuous :
   crop_range (mkWin 2 1 0 None) (3, 7) ALoose None = (1, 8) /\
   crop_range (mkWin 2 1 0 None) (3, 7) AStrict None = (3, 6) /\
@@ -60,3 +71,5 @@ Print Assumptions C15_fixed_count.
 Print Assumptions C15_index_array.
 Print Assumptions C15_timeline_focus.
 Print Assumptions C15_empty_focus.
+Print Assumptions C15_ranges_describe_the_same_index_set.
+Print Assumptions C15_ranges_are_separated_runs.
